@@ -28,6 +28,7 @@ type realStore struct {
 	db     *faultdb.DB
 	s      *wtxmgr.Store
 	params *chaincfg.Params
+	en     *enumerator // C10 only
 }
 
 func openReal(path string, params *chaincfg.Params) (*realStore, error) {
@@ -79,6 +80,9 @@ func (r *realStore) reopen() error {
 }
 
 func (r *realStore) update(f func(ns walletdb.ReadWriteBucket) error) error {
+	if r.en != nil && r.en.active {
+		return r.en.run(r, f)
+	}
 	return walletdb.Update(r.db, func(tx walletdb.ReadWriteTx) error {
 		return f(tx.ReadWriteBucket(nsKey))
 	})
@@ -113,6 +117,9 @@ func (r *realStore) addRelevantTx(ns walletdb.ReadWriteBucket, t *utx, blk *wtxm
 		return nil
 	}
 	for _, ci := range t.creditIx {
+		if r.en != nil {
+			r.en.addCredit = true
+		}
 		if err := r.s.AddCredit(ns, rec, blk, ci, t.credits[ci]); err != nil {
 			return err
 		}
@@ -244,7 +251,7 @@ type sim struct{}
 func init() { core.Register(sim{}) }
 
 func (sim) Name() string    { return "ledgersim" }
-func (sim) Props() []string { return []string{"C01", "C02", "C12", "C13", "C14"} }
+func (sim) Props() []string { return []string{"C01", "C02", "C10", "C12", "C13", "C14"} }
 
 func (sim) Execute(env *core.Env, p *core.Plan) {
 	cfg := readCfg(p)
@@ -270,6 +277,11 @@ func (sim) Execute(env *core.Env, p *core.Plan) {
 	w := newWorld(p.Seed, cfg, u)
 	w.env, w.drv, w.prop = env, st, p.Prop
 	x := &oracle{w: w, st: st, env: env, prop: p.Prop}
+	var en *enumerator
+	if p.Prop == "C10" {
+		en = &enumerator{x: x}
+		st.en = en
+	}
 	if env.Verbose {
 		// replay aid only (not part of the hashed event log)
 		env.Trace = append(env.Trace, u.describe()...)
@@ -287,7 +299,17 @@ func (sim) Execute(env *core.Env, p *core.Plan) {
 		case "listlocks":
 			eff = x.opListLocks()
 		default:
+			if en != nil {
+				en.active, en.kind, en.sync = op.Str(0) == "enum", op.K, w.tip
+				en.instances, en.maxN, en.addCredit = 0, 0, false
+				x.enumerated = false
+			}
 			eff = w.apply(op)
+			if en != nil {
+				en.active = false
+				x.enumerated = en.instances > 0
+				x.enumProbes(en, op.K)
+			}
 		}
 		if env.Failed() {
 			return
